@@ -1,4 +1,5 @@
 import GrinVerif.Model.KeysNonce
+import GrinVerif.Lemmas.KeysArith
 /-! # C20 — the nonces of the proof builders and `BlindingFactor::from_slice`, at byte level
 
 Theorems about `Model/KeysNonce.lean`.  The hash itself (keyed BLAKE2b) is executable and compared
@@ -64,6 +65,40 @@ theorem child_from_idx (hardened : Bool) (i : Nat) (h : i < 2^32) :
     refine ⟨by simp [h1]; omega, ?_⟩
     intro c hc
     simp [h1] at hc
+
+/-! ## what the derivation steps feed the HMAC -/
+
+/-- **public derivation hashes what private derivation hashes**: for a normal child `ckd_pub` feeds
+the HMAC the very message `ckd_priv` feeds it (same key: the chain code) — the message half of the
+BIP32 contract `viewPubMatches` relies on; a hardened child cannot be derived publicly. -/
+theorem public_message_is_private_message (secret pub : Bytes) (c : ChildNumber) :
+    (c.isHardened = false → ckdPubMessage pub c = some (ckdPrivMessage secret pub c)) ∧
+    (c.isHardened = true → ckdPubMessage pub c = none) := by
+  cases c <;> simp [ckdPubMessage, ckdPrivMessage, ChildNumber.isHardened]
+
+/-- **different children of one parent get different messages**: for a 32-byte secret and a 33-byte
+public key, the message determines the child number (canonical child numbers: index < 2^31) — the
+u32 word at the end tells `Normal{2^31−1}` from `Hardened{0}` and every other pair. -/
+theorem ckd_message_injective (secret pub : Bytes) (hs : secret.length = 32) (hp : pub.length = 33)
+    (c1 c2 : ChildNumber) (w1 : c1.WF) (w2 : c2.WF)
+    (h : ckdPrivMessage secret pub c1 = ckdPrivMessage secret pub c2) : c1 = c2 := by
+  have key : u32be c1.toU32 = u32be c2.toU32 := by
+    have hl : ∀ c : ChildNumber, (ckdPrivMessage secret pub c).drop 33 = u32be c.toU32 := by
+      intro c
+      cases c with
+      | normal i => simp only [ckdPrivMessage]; exact drop_left' hp
+      | hardened i =>
+        simp only [ckdPrivMessage]
+        exact drop_left' (by simp [hs])
+    rw [← hl c1, ← hl c2, h]
+  have e : c1.toU32 = c2.toU32 := by
+    have a := readU32_u32be c1.toU32 (toU32_lt c1 w1)
+    have b := readU32_u32be c2.toU32 (toU32_lt c2 w2)
+    simp only [u32be] at key a b
+    simp only [cons.injEq, and_true] at key
+    obtain ⟨k1, k2, k3, k4⟩ := key
+    rw [← a, ← b, k1, k2, k3, k4]
+  rw [← toU32_ofU32 c1 w1, ← toU32_ofU32 c2 w2, e]
 
 /-! ## `BlindingFactor::from_slice` -/
 
